@@ -2070,6 +2070,15 @@ def _c03_task(acc, task, tier, seed, d, state):
                 acc.sample({"tree": spec.origin, "parser": pv, "ops": _short(done, 300)})
             for f in fails:
                 cls = "%s:%s:%s" % (f["cmp"], f["diff"][1], f["opkind"])
+                # one known root cause gets its own class: the differing option is an int / hex / float target of a
+                # `set` / `set default` whose operand is a symbol.  The numeric branches of str_value test the operand's
+                # name, treat it as a malformed literal and then leave _has_active_indirect_set as the previous
+                # evaluation left it (KNOWN_FINDINGS: precedence:<type>:set-sym), so the result depends on history.
+                tsym = k.syms.get(f["diff"][0]) if isinstance(f["diff"][0], str) else None
+                if tsym is not None and tsym.orig_type in (K.INT, K.HEX, K.FLOAT) and any(
+                        not (K.is_float(v.name) if tsym.orig_type == K.FLOAT else K._is_base_n(v.name, 16 if tsym.orig_type == K.HEX else 10))
+                        for v, _c, _s in list(tsym.rev_values) + list(tsym.weak_rev_values)):
+                    cls += ":numeric-target-of-set-with-symbol-operand"
                 if cls in acc.viol:
                     acc.viol[cls]["count"] += 1
                     continue
